@@ -49,6 +49,7 @@ class FnContract:
     ghost: dict = field(default_factory=dict)  # statement text -> [ghost assignment statements] run after it
     runtime: object = None  # Runtime: generator of real inputs for cross-check / replay
     alias_ok: tuple = ()
+    comp_positions: bool = False  # filtered list comprehensions get order-preserving Skolem position functions (source position of each result position, strictly increasing, onto the passing positions)
     comp_membership: bool = False  # list comprehensions also get `y in result => y == body(i) for some passing i` (extra quantified fact)
     merge_branches: bool = True  # False: keep the paths of every `if` apart (more obligations, simpler terms)
     dict_key_positions: bool = True  # every key k of a dict that is iterated / measured sits at a position of its key list: keys[keypos(k)] == k (Skolem function).  An extra quantified fact over seq.nth that derails some proofs: switch it off per contract when no clause goes from `k in d` to a position of the iteration
